@@ -83,8 +83,9 @@ inductive CD
 deriving Repr, Inhabited
 
 /-- kinds of C parameters: `int_fast32_t` / `bool`; `T*` (dense tensor, scalar by reference);
-    `struct exo_win_kT` by value -/
-inductive PKind | int | ptr | win
+    `struct exo_win_kT` by value (rank `k`; checked by the typing judgement `ExoModel.CTyping`, not at
+    run time) -/
+inductive PKind | int | ptr | win (rank : Nat)
 deriving DecidableEq, Repr, Inhabited
 
 /-- actual arguments as `comp_fnarg` prints them -/
@@ -345,7 +346,7 @@ def bindC (c : CState V) : List (Sym × PKind) → List CArg → List (Sym × In
       match k, v with
       | .int, .int n => bindC c ps as ((x, n) :: ci) cv
       | .ptr, .val (.ptr b o) => bindC c ps as ci ((x, .ptr b o) :: cv)
-      | .win, .val (.win b o ss) => bindC c ps as ci ((x, .win b o ss) :: cv)
+      | .win _, .val (.win b o ss) => bindC c ps as ci ((x, .win b o ss) :: cv)
       | _, _ => throw .stuck
   | _, _, _, _ => throw .stuck
 
